@@ -117,17 +117,20 @@ PROPS['C10'] = {
 PROPS['C12'] = {
     'units': ['arith'],
     'functions': ['built_in_arithmetic.rs::get_numbers', 'built_in_arithmetic.rs::get_integers', 'built_in_arithmetic.rs::get_floats',
+                  'built_in_arithmetic.rs::evaluate_add', 'built_in_arithmetic.rs::evaluate_subtract',
+                  'built_in_arithmetic.rs::evaluate_multiply', 'built_in_arithmetic.rs::evaluate_divide',
                   ],
     'oracles': {'*': 'c12_arith'},
-    'bounded': [('c12_arith', 'evaluate_add / subtract / multiply / divide against the left-to-right fold: all 1- and 2-argument lists over a pool of 20 extreme integers and floats, '
+    'bounded': [('c12_arith', 'evaluate_add / subtract / multiply / divide against the left-to-right fold computed with Rust\'s own f64 / i64 operators (the proof is relative to vstd\'s uninterpreted f64 operations '
+                              'and to i2f): all 1- and 2-argument lists over a pool of 20 extreme integers and floats, '
                               '600 seeded lists of 3-4 arguments per operation (literal, through bound variables, through variable chains), and 2-operand infix forms through parse_term')],
     'kani': {'quick': [], 'thorough': []},
     'not_covered': [
-        'NOT PROVED: the value of the fold. evaluate_add / subtract / multiply / divide fold with iterator closures over f64 / i64 arithmetic (outside Verus: closures in iterator adapters are unsupported and exec float '
-        'arithmetic crashes or is unspecified there), and the Kani harnesses on the real functions (kani/src/arith.rs, one per type shape) exhaust memory in CBMC (propositional reduction > 33 GB for two integer arguments), '
-        'so they are not registered: the fold is decided by a bounded enumeration only',
-        'PROVED (unit arith): the argument pipeline the four functions share - get_numbers returns the ground values in argument order and has_float exactly when one is a float; get_integers returns the integers in order; '
-        'get_floats returns every number as a float in order, integers converted (relative to i2f, the uninterpreted value of `i as f64`, T6)',
+        'RELATIVE TO (trusted T6): the f64 operators + - * / are total functions of their operands (vstd\'s uninterpreted add_spec / sub_spec / mul_spec / div_spec; nothing is assumed about their values) and the cast `i as f64` is a function i2f(i) of the integer; '
+        'that these functions are the IEEE-754 operations is the hardware\'s / rustc\'s business - the bounded enumeration compares with Rust\'s own operators bit for bit',
+        'rule R13 writes `v.iter().fold(init, |mut acc, &x| {acc op= x; acc})` as the loop Iterator::fold is defined as (trusted T4: core\'s definition of fold for slice iterators; `acc op= x` is `acc = acc op x` for primitive numbers)',
+        'subtract / divide with no argument at all panic (Vec::remove(0)); the claim is about the fold of at least one argument there',
+        'the infix forms `+ - * /` reach the same four functions through the infix parser (string level: bounded enumeration only)',
         "'the value is then unified with the other operand' is C13 (proved)",
     ],
 }
@@ -188,13 +191,12 @@ PROPS['C22'] = {
 
 LEVEL = {p: 'proof' for p in PROPS}
 LEVEL['C22'] = 'proof'
-LEVEL['C12'] = 'exploration'
 
 # trusted base items, by tag found in generated files (scan_assumptions)
 TRUSTED_TEXT = {
     'T1': "rustc's derived PartialEq/Clone on the extracted types behave as spec `ueq` / identity (assume_specification + PartialEqSpecImpl)",
     'T2': 'vstd specifications of Vec, Rc, Box, Option, String, slices; axioms added where vstd has none are listed individually',
     'T3': 'assumed specifications for std string/char primitives (listed individually)',
-    'T4': 'extractor rewrite rules R1-R8 (syntactic; counts per rule reported in coverage.rewrites)',
+    'T4': 'extractor rewrite rules R1-R13 (syntactic; counts per rule reported in coverage.rewrites)',
     'T5': 'Verus 0.2026.09.13 + its Z3; rustc front end',
 }
